@@ -118,7 +118,10 @@ def effects_of(leaf):
 
 def signature(leaf):
     val = vkey(leaf.value) if leaf.kind == "return" else (leaf.exc if leaf.kind == "raise" else None)
-    return (leaf.kind if leaf.kind in ("return", "raise") else "fall", val, tuple(effects_of(leaf)))
+    kind = leaf.kind if leaf.kind in ("return", "raise") else "fall"
+    if kind == "return" and val is None:
+        kind = "fall"
+    return (kind, val, tuple(effects_of(leaf)))
 
 
 def show_effect(x):
@@ -237,6 +240,10 @@ def compare(model, roles_, code_fn, ref_fn, rep, rule, construct, where, what, f
                 continue
             matched = True
             rows += 1
+            if sigr[0] == "fall" and sigc[0] == "return":
+                # the reference is a procedure (it returns nothing on this path): what the code additionally hands back to its caller is
+                # no part of the state the comparison is about
+                sigc = ("fall", None, sigc[2])
             if sigc == sigr:
                 continue
             ok = False
